@@ -338,7 +338,8 @@ func TestErrors(t *testing.T) {
 		{"SELECT id FROM items WHERE id = $1", []any{1, 2}, "argument $2 is never referenced"},
 		{"SELECT id FROM items WHERE id = $1 AND kind = $3", []any{1, 2, 3}, "argument $2 is never referenced"},
 		{"SELECT id FROM items", []any{1}, "argument $1 is never referenced"},
-		{"SELECT id FROM items WHERE id = $1 OR kind = $1", []any{1}, "inconsistent types deduced for parameter $1"},
+		{"SELECT id FROM items WHERE id = $1 OR name = $1", []any{1}, "parameter $1 is used with inconsistent types"},
+		{"SELECT id FROM items WHERE kind = $1 OR id = $1", []any{40000}, "out of range for type smallint"},
 		{"SELECT id FROM items WHERE $1 IS NULL", []any{1}, "could not determine data type of parameter $1"},
 		{"INSERT INTO links (iditem) VALUES ($1)", []any{1}, `null value in column "label"`},
 		{"INSERT INTO links (iditem, label) VALUES ($1, $2)", []any{nil, "x"}, `null value in column "iditem"`},
@@ -570,5 +571,26 @@ func TestTxCopyCloneCanon(t *testing.T) {
 	y.DB().Exec("INSERT INTO links (iditem, label) VALUES ($1, $2)", 1, "p")
 	if x.Canon() != y.Canon() || x.Canon() == c.Canon() {
 		t.Fatal(x.Canon(), y.Canon())
+	}
+}
+
+func BenchmarkCloneInsertSelect(b *testing.B) {
+	base, err := NewStore(testDDL)
+	if err != nil {
+		b.Fatal(err)
+	}
+	args := itemArgs("x")
+	for i := 0; i < b.N; i++ {
+		s := base.Clone()
+		db := s.DB()
+		var id int64
+		if _, err := db.Exec(insertItem, args...); err != nil {
+			b.Fatal(err)
+		}
+		if err := db.QueryRow("SELECT id FROM items WHERE id = $1", 1).Scan(&id); err != nil {
+			b.Fatal(err)
+		}
+		_ = s.Canon()
+		s.Close()
 	}
 }
